@@ -12,6 +12,7 @@ Model-free oracles on the implementation (see design/C11.md):
   dominant  wherever a position is the strict maximum (Python keyf) within max on both sides, every chunk that
             has it in reach ends there
   padding   real snapshots of [a, F] and [b, F] (|a| != |b| mod 4): F starts aligned in both, its chunks are shared
+  repo_key  the same file snapshotted into two encrypted repositories (independent keys): boundaries differ
 """
 from __future__ import annotations
 
@@ -378,6 +379,51 @@ def snapshot_pair(seed, workdir):
     return problems, st, desc
 
 
+def snapshot_keys(seed, workdir):
+    """The same file snapshotted into two encrypted repositories (independently generated chunker keys):
+    the boundaries must differ.  -> (problems, stats, description)."""
+    from pathlib import Path
+    from replicat.repository import Repository
+    from harness.memstore import MemBackend
+    from harness.c01 import Recorder, instrument
+    r = random.Random(seed)
+    mx = r.choice([64, 96, 128])
+    mn = r.choice([1, 4, mx // 16])
+    F = r.randbytes(r.randint(80, 120) * mx)
+    settings = {'chunking': {'min_length': mn, 'max_length': mx}, 'hashing': {'name': 'blake2b', 'length': 32},
+                'encryption': {'cipher': {'name': 'chacha20_poly1305'}, 'kdf': {'name': 'scrypt', 'n': 4, 'r': 1, 'p': 1}}}
+    desc = {'kind': 'snapshot_keys', 'seed': seed, 'min': mn, 'max': mx, 'file_length': len(F)}
+    d = Path(workdir) / f'{seed}-keys'
+    d.mkdir(parents=True)
+    (d / 'file').write_bytes(F)
+    recs = []
+
+    async def go():
+        for i in (0, 1):
+            backend = MemBackend(random.Random(seed + i), 0.0)
+            repo = Repository(backend, concurrent=2, quiet=True, cache_directory=None)
+            init = await repo.init(password=b'pw', settings=settings)
+            rec = Recorder()
+            with instrument(rec):
+                rp = Repository(backend, concurrent=2, quiet=True, cache_directory=None)
+                await rp.unlock(password=b'pw', key=init.key)
+                await rp.snapshot(paths=[d / 'file'], note='n')
+            recs.append(rec)
+
+    sink = io.StringIO()
+    with contextlib.redirect_stdout(sink), contextlib.redirect_stderr(sink):
+        asyncio.run(go())
+    problems, st = [], {'chunks': [len(r_.chunks) for r_ in recs]}
+    if recs[0].key == recs[1].key or b''.join(recs[0].pieces) != F or b''.join(recs[1].pieces) != F:
+        st['inapplicable'] = True
+        return problems, st, desc
+    if ends_of(recs[0].chunks) == ends_of(recs[1].chunks) and len(recs[0].chunks) >= 40:
+        problems.append((f'two encrypted repositories with different chunker keys cut the same {len(F)} high-entropy bytes identically '
+                         f'({len(recs[0].chunks)} chunks, min {mn}, max {mx})', 'repo_key'))
+    st['different'] = not problems
+    return problems, st, desc
+
+
 # --------------------------------------------------------------------------- model side helpers
 def keyf_model_file(samples):
     lines = ['From Coq Require Import List NArith.', 'From Replicat Require Import Model.Clmul Model.Resync.',
@@ -451,7 +497,7 @@ RULE = ('cases drawn from one PRNG: (a) model-sized (<= ~620 bytes, max <= 64; d
         'pairs prefix1+S, prefix2+S with prefix lengths multiples of 4, unaligned negative controls, insert / delete (multiples of 4 bytes at any '
         'offset) / alter edits, key pairs - each stream chunked by the real adapter over the recompiled C++ under a random segmentation AND by the '
         'Gallina model (vm_compute); (b) oracle-only high-entropy streams of (256 + 2..6)*max bytes, max 64..256 (thorough: ..1024, some max not '
-        'multiples of 4), min <= max/16, same kinds, key pairs independent / k0 only / k1 with differing top bit; (c) real snapshots [a,F], [b,F]; '
+        'multiples of 4), min <= max/16, same kinds, key pairs independent / k0 only / k1 with differing top bit; (c) real snapshots [a,F], [b,F] in one repository, and one file in two encrypted repositories; '
         'non-trivial = a common boundary outside the tail zone followed by >= 2 shared chunks (pairs, edits), >= 40 chunks (keys), '
         '>= 1 verified dominant position; distinct = distinct case descriptions')
 
@@ -500,9 +546,8 @@ def check_cases(cases, rep: Report, with_model=True, stats=None):
             rep.count('keys_same_boundaries' if st.get('same') else 'keys_different_boundaries')
         rep.sample({'case': case, 'chunks': [len(c1), len(c2)], 'first_common_suffix_boundary': st.get('q'),
                     'shared_after': st.get('post_shared'), 'shared_before_edit': st.get('pre_shared')})
-        sig_base = {'case_kind': case['kind'], 'mx_mod4': case['mx'] % 4}
-        for what, kind in problems:
-            rep.violations.append({'what': what, 'signature': dict(sig_base, kind=kind), 'replay': case})
+        for what, kind in problems:       # one reported line per oracle; the replay carries the case
+            rep.violations.append({'what': what, 'signature': {'kind': kind}, 'replay': case})
         if with_model and case.get('model'):
             for which, pieces, ch in ((1, p1, c1), (2, p2, c2)):
                 key = case['key2'] if (which == 2 and case['kind'] == 'keys') else case['key']
@@ -535,7 +580,18 @@ def run_snapshots(ctx, rep: Report, n, stats):
         stats['snapshot_shared_chunks'] = stats.get('snapshot_shared_chunks', 0) + st.get('shared_chunks', 0)
         rep.sample({'case': desc, 'result': st}, limit=6)
         for what, kind in problems:
-            rep.violations.append({'what': what, 'signature': {'case_kind': 'snapshot', 'kind': kind}, 'replay': desc})
+            rep.violations.append({'what': what, 'signature': {'kind': kind}, 'replay': desc})
+    for _ in range(max(1, n // 3)):
+        seed = ctx.rng.getrandbits(31)
+        try:
+            problems, st, desc = snapshot_keys(seed, ctx.scratch / 'snap')
+        except Exception as ex:
+            rep.notes.append(f'snapshot key pair {seed} not evaluated: {type(ex).__name__}: {ex}')
+            continue
+        rep.case(desc, nontrivial=min(st['chunks']) >= 40 and not st.get('inapplicable'))
+        rep.count('snapshot_keys' + (':inapplicable' if st.get('inapplicable') else ''))
+        for what, kind in problems:
+            rep.violations.append({'what': what, 'signature': {'kind': kind}, 'replay': desc})
 
 
 def finish(rep: Report, stats):
@@ -553,10 +609,10 @@ def run(ctx) -> Report:
     rep = Report(rule=RULE)
     rng = ctx.rng
     stats = {}
-    small = [gen_small(rng) for _ in range(ctx.scale(300, 3000))]
-    large = [gen_large(rng, ctx.tier == 'thorough') for _ in range(ctx.scale(150, 1500))]
+    small = [gen_small(rng) for _ in range(ctx.scale(300, 6000))]
+    large = [gen_large(rng, ctx.tier == 'thorough') for _ in range(ctx.scale(150, 4000))]
     mid = []
-    for _ in range(ctx.scale(20, 120)):                      # mid-sized streams for the dominant-position oracle
+    for _ in range(ctx.scale(20, 300)):                      # mid-sized streams for the dominant-position oracle
         c = gen_large(rng, False)
         if c['kind'] == 'keys':
             c['kind'], c['p1'], c['p2'] = 'pair', [rng.getrandbits(32), 8], [rng.getrandbits(32), 24]
@@ -567,7 +623,7 @@ def run(ctx) -> Report:
         mid.append(c)
     check_cases(small + large + mid, rep, with_model=True, stats=stats)
     hash_correspondence(rng, rep, nkeyf=ctx.scale(100, 400), ndom=ctx.scale(4, 12))
-    run_snapshots(ctx, rep, ctx.scale(6, 30), stats)
+    run_snapshots(ctx, rep, ctx.scale(6, 60), stats)
     finish(rep, stats)
     rep.notes.append('the re-synchronisation DISTANCE is a measured quantity checked against a probabilistic bound (exploration support); '
                      'suffix/prefix determinism, first-maximum, dominant cut, padding alignment are theorems')
@@ -597,8 +653,9 @@ def search(ctx, broken) -> Report:
 def replay(ctx, obj):
     rep = Report(rule=RULE)
     case = obj.get('replay') or {}
-    if case.get('kind') == 'snapshot':
-        problems, st, desc = snapshot_pair(case['seed'], ctx.scratch / 'snap')
+    if case.get('kind') in ('snapshot', 'snapshot_keys'):
+        fn = snapshot_pair if case['kind'] == 'snapshot' else snapshot_keys
+        problems, st, desc = fn(case['seed'], ctx.scratch / 'snap')
         for what, kind in problems:
             print('VIOLATION-REPRODUCED', what)
         return 1 if problems else 0
